@@ -88,7 +88,7 @@ def rule_futex_key(rep, rid_prefix, prog, pairs=FUTEX_PAIRS):
         rep.saw(fn)
         out = []
         for c in fn.all_insts():
-            if c.op == "call" and (c.callee or "").startswith("_dispatch_futex_"):
+            if c.op == "call" and "futex" in (c.callee or "") and not (c.callee or "").startswith("llvm."):
                 last = c.ops[-1]
                 out.append((c, last[1] if last[0] == "c" else None))
         return fn, out
